@@ -7,7 +7,7 @@ from hypothesis import strategies as st
 
 from mv import gen_atoms, model_atoms as M, ref_lammps
 from mv.quiet import silenced, workdir
-from mv.runner import HypPart, Violation
+from mv.runner import FuzzPart, HypPart, Violation
 
 PROPERTY = "C13"
 RULE = ("Hypothesis typed structures (1-8 atoms, thorough up to 30; 1-12 atom types; up to 12 types per term kind with "
@@ -251,4 +251,5 @@ def oracle(c, stats):
 
 PARTS = [
     HypPart("roundtrip", lambda tier: case(tier), oracle, {"quick": 4000, "thorough": 60000}),
+    FuzzPart("coverage-guided-roundtrip", "roundtrip", runs=5000),
 ]
